@@ -127,7 +127,9 @@ def judge(meta, rty, pl, native, kind, boolish):
     if kind.startswith('footprint'):
         return False, 'no fault observed'
     if kind.startswith('ub:'):
-        return False, 'not replayable natively'
+        if native.get('ubsan'):
+            return True, 'UBSan: ' + native['ubsan'][0][-200:]
+        # no sanitizer report: still compare what the call did with what the property demands
     out = native.get('stdout_full', '')
     pages = {}
     for m in re.finditer(r'PAGE (\d+) ([0-9a-f]+)', out):
@@ -221,6 +223,8 @@ def replay_cex(prop, meta, cfg, fn_arg_types, rty, model, kind, outroot=None):
         for cc, opt in (('clang++-14', '-O1'), ('g++', '-O2')):
             exe = os.path.join(outdir, 'repro_%s.%s' % (placement, cc.replace('+', 'x')))
             cmd = [cc] + cfg.flags() + [opt, '-w', '-I' + os.path.join(build.HERE, 'cxx'), '-I' + build.repo_include(), src, '-o', exe]
+            if kind.startswith('ub:'):
+                cmd[1:1] = ['-fsanitize=undefined', '-fno-omit-frame-pointer']
             r = subprocess.run(cmd, stdout=subprocess.PIPE, stderr=subprocess.PIPE, universal_newlines=True)
             key = '%s%s/%s' % (cc, opt, placement)
             if r.returncode != 0:
@@ -228,10 +232,12 @@ def replay_cex(prop, meta, cfg, fn_arg_types, rty, model, kind, outroot=None):
                 continue
             try:
                 rr = subprocess.run([exe], stdout=subprocess.PIPE, stderr=subprocess.PIPE, universal_newlines=True, timeout=60, preexec_fn=replay._unlimit)
-                out = rr.stdout
+                out, err = rr.stdout, rr.stderr
             except subprocess.TimeoutExpired:
-                out = ''
+                out = err = ''
             nat = {'stdout_full': out}
+            if kind.startswith('ub:'):
+                nat['ubsan'] = [l for l in err.split('\n') if 'runtime error:' in l]
             m = re.search(r'RESULT ([0-9a-f]*)', out)
             if m:
                 hx = m.group(1)
